@@ -223,17 +223,17 @@ Definition compact (al : alg) (vt : N * N) (now_s : N) (s : cvol) : files :=
   files_of (match al with Scan => compact_scan vt now_s s | Index => compact_index vt now_s s end).
 
 (* ---------- makeupDiff ---------- *)
-(* util.Uint32toBytes(idxEntryBytes[8:12], uint32(offset/NeedlePaddingSize)): the low four
-   offset bytes are replaced; with 5-byte offsets the fifth byte of the OLD entry stays *)
-Definition patch (osz new_off old_off : N) : N :=
-  let lo := (new_off / 8) mod 4294967296 in
-  let hi := if osz =? 5 then ((old_off / 8) / 4294967296) mod 256 else 0 in
-  (lo + hi * 4294967296) * 8.
+(* The offset of the copied .idx entry is replaced as a whole:
+     OffsetToBytes(idxEntryBytes[NeedleIdSize:NeedleIdSize+OffsetSize], ToOffset(offset))
+   (repaired; before, only bytes 8..12 were patched and with -tags 5BytesOffset the fifth
+   offset byte of the OLD entry survived).  ToOffset is exact below MaxPossibleVolumeSize,
+   as everywhere else in this model, so the entry simply gets the new offset (0 for a delete)
+   and the offset width no longer matters. *)
 
 (* fakeDelNeedle: Id = key, Cookie = 0x12345678, no data *)
 Definition fake_del (key : N) : needle := tombstone key 305419896.
 
-Definition makeup_one (osz : N) (old : vol) (F : files) (e : ientry) : files :=
+Definition makeup_one (old : vol) (F : files) (e : ientry) : files :=
   if negb (ie_off e =? 0) && negb (ie_size e =? 0)%Z && size_valid (ie_size e) then
     (* updated needle: the raw blob is copied from the old .dat to the end of the new one *)
     {| f_recs := match find_rec (recs old) (ie_off e) with
@@ -241,21 +241,21 @@ Definition makeup_one (osz : N) (old : vol) (F : files) (e : ientry) : files :=
                  | None => f_recs F
                  end;
        f_end := f_end F + actual_size (Z.to_N (ie_size e));
-       f_idx := {| ie_key := ie_key e; ie_off := patch osz (f_end F) (ie_off e); ie_size := ie_size e |} :: f_idx F |}
+       f_idx := {| ie_key := ie_key e; ie_off := f_end F; ie_size := ie_size e |} :: f_idx F |}
   else
     (* deleted needle (tombstone, or an empty blob whose size is 0) *)
     {| f_recs := {| r_off := f_end F; r_size := 0; r_at := 0; r_n := fake_del (ie_key e) |} :: f_recs F;
        f_end := f_end F + actual_size 0;
-       f_idx := {| ie_key := ie_key e; ie_off := patch osz 0 (ie_off e); ie_size := ie_size e |} :: f_idx F |}.
+       f_idx := {| ie_key := ie_key e; ie_off := 0; ie_size := ie_size e |} :: f_idx F |}.
 
 (* the .idx entries appended after lastCompactIndexOffset (n1 entries existed then) *)
 Definition diff_entries (n1 : nat) (idx2 : idxlog) : idxlog := firstn (length idx2 - n1) idx2.
 
 (* incrementedHasUpdatedIndexEntry: newest entry per key; the Go map is then iterated in an
    unspecified order [ord] (a list of keys) *)
-Definition makeup (osz : N) (ord : list N) (F : files) (n1 : nat) (s2 : cvol) : files :=
+Definition makeup (ord : list N) (F : files) (n1 : nat) (s2 : cvol) : files :=
   fold_left (fun F k => match idx_get (diff_entries n1 (cidx s2)) k with
-                        | Some e => makeup_one osz (cv s2) F e
+                        | Some e => makeup_one (cv s2) F e
                         | None => F
                         end) ord F.
 
@@ -331,7 +331,7 @@ Definition commit (F : files) : vol :=
      no_write_can_delete := false |}.
 
 (* ---------- the two runs the property compares ---------- *)
-Record cfg := { g_vttl : N * N; g_osz : N (* types.OffsetSize: 4, or 5 with -tags 5BytesOffset *) }.
+Record cfg := { g_vttl : N * N }.
 
 (* makeupDiff fails when the .idx was empty when the compaction started
    (lastCompactIndexOffset = 0) and has entries now: its backwards loop
@@ -350,7 +350,7 @@ Definition compacted_files (g : cfg) (al : alg) (now_s : N) (ord : list N) (h1 h
   let s1 := c_exec (g_vttl g) cinit h1 in
   let s2 := c_exec (g_vttl g) s1 h2 in
   if makeup_fails (length (cidx s1)) s2 then old_files s2
-  else makeup (g_osz g) ord (compact al (g_vttl g) now_s s1) (length (cidx s1)) s2.
+  else makeup ord (compact al (g_vttl g) now_s s1) (length (cidx s1)) s2.
 
 Definition compacted (g : cfg) (al : alg) (now_s : N) (ord : list N) (h1 h2 : list cevent) : vol :=
   commit (compacted_files g al now_s ord h1 h2).
@@ -387,12 +387,7 @@ Definition ttl_ok (vt : N * N) (now_s now_r : N) (ev : cevent) : bool :=
 Definition ttl_consistent (vt : N * N) (now_s now_r : N) (h1 : list cevent) : bool :=
   forallb (ttl_ok vt now_s now_r) h1.
 
-(* finding 3: offsets that need the fifth byte (beyond 32 GiB = 2^35 bytes) *)
-Definition within_32g (g : cfg) (al : alg) (now_s : N) (ord : list N) (h1 h2 : list cevent) : bool :=
-  (dat_end (twin g h1 h2) <=? 34359738368) &&
-  (f_end (compacted_files g al now_s ord h1 h2) <=? 34359738368).
-
-(* finding 2 (and the consequence of 3): the integrity check of the reload changes the files *)
+(* finding 2: the integrity check of the reload changes the files *)
 Definition check_noop (c : nat * option N * bool) : bool :=
   Nat.eqb (fst (fst c)) 0 && match snd (fst c) with None => true | Some _ => false end && negb (snd c).
 Definition reload_noop (g : cfg) (al : alg) (now_s : N) (ord : list N) (h1 h2 : list cevent) : bool :=
